@@ -18,11 +18,11 @@ type RSAKey struct {
 	// d_short (d one byte shorter than n). Empty for the ordinary keys, which are looked up by (bits, e).
 	Shape string `json:"shape,omitempty"`
 	Bits  int    `json:"bits"`
-	E    int    `json:"e"`
-	N    string `json:"n"`
-	D    string `json:"d"`
-	P    string `json:"p"`
-	Q    string `json:"q"`
+	E     int    `json:"e"`
+	N     string `json:"n"`
+	D     string `json:"d"`
+	P     string `json:"p"`
+	Q     string `json:"q"`
 }
 
 //go:embed rsa_keys.json
